@@ -37,7 +37,9 @@ Inductive op :=
 | ORepeat (n : nat) | OFlatDup.
 
 Fixpoint zip_add (a b : list Z) : list Z := match a, b with x :: a', y :: b' => (x + y) :: zip_add a' b' | _, _ => [] end.
-Fixpoint running (acc : Z) (l : list Z) : list Z := match l with [] => [] | x :: r => (acc + x) :: running (acc + x) r end.
+(* aggregate with the NON-commutative function (a, b) -> a - b, so that the argument order of the callback is observable *)
+Fixpoint running (acc : Z) (l : list Z) : list Z := match l with [] => [] | x :: r => (acc - x) :: running (acc - x) r end.
+Definition running1 (l : list Z) : list Z := match l with [] => [] | x :: r => x :: running x r end.
 Fixpoint enum_mix (i stride : Z) (l : list Z) : list Z := match l with [] => [] | x :: r => (i * 1000 + x) :: enum_mix (i + stride) stride r end.
 Definition sumz (l : list Z) : Z := fold_left Z.add l 0.
 Fixpoint windows (k : nat) (l : list Z) (fuel : nat) : list (list Z) :=
@@ -77,7 +79,7 @@ Definition apply (p : nat) (o : op) (l : list Z) : list Z :=
   | OSkipUntilGt k => skip_until (fun x => k <? x) l
   | OZipAdd s => zip_add l (prefix s p)
   | OChain s => l ++ prefix s p
-  | OAggSum None => running 0 l
+  | OAggSum None => running1 l
   | OAggSum (Some z) => z :: running z l
   | OEnumMix a d => enum_mix a d l
   | OWindowsSum k => map sumz (windows k l (S (length l)))
